@@ -68,6 +68,7 @@ type Term struct {
 
 // Store hash-conses terms for one path execution.
 type Store struct {
+	lin   map[int]*linForm
 	tab   map[string]*Term
 	next  int
 	Vars  []*Term
@@ -76,7 +77,7 @@ type Store struct {
 }
 
 func NewStore() *Store {
-	s := &Store{tab: make(map[string]*Term)}
+	s := &Store{tab: make(map[string]*Term), lin: make(map[int]*linForm)}
 	s.True = s.mk(&Term{Op: OpConst, W: 0, Val: 1})
 	s.False = s.mk(&Term{Op: OpConst, W: 0, Val: 0})
 	return s
@@ -461,6 +462,11 @@ func (s *Store) Bin(op Op, a, b *Term) *Term {
 			return s.Const(w, v)
 		}
 	}
+	if useLinearForm && (op == OpAdd || op == OpSub || (op == OpMul && (a.IsConst() || b.IsConst())) || (op == OpShl && b.IsConst() && b.Val < uint64(w))) {
+		if t := s.linBin(op, a, b); t != nil {
+			return t
+		}
+	}
 	switch op {
 	case OpAdd:
 		if a.IsConst() && a.Val == 0 {
@@ -778,4 +784,195 @@ func (t *Term) String() string {
 	}
 	sb.WriteString(")")
 	return sb.String()
+}
+
+// --- linear normal form for +, -, *const, <<const (mod 2^w) ---
+//
+// Sums such as rolling checksums accumulate long chains of additions and
+// subtractions in which most atoms cancel again; keeping them in the canonical
+// form  c + k1*a1 + k2*a2 + ...  (atoms ordered by id) makes those cancellations
+// syntactic, keeps terms small and lets many branch conditions fold to constants.
+
+type linAtom struct {
+	t *Term
+	k uint64
+}
+
+type linForm struct {
+	c     uint64
+	atoms []linAtom // sorted by t.ID, k != 0
+}
+
+const maxLinAtoms = 48
+
+// useLinearForm: measured on the delta-search harnesses the rewrite did not pay off
+// (flattening destroys the sharing of intermediate sums; HDeltaSender{n=4,m=4,b=3} went
+// from 13 s to 250 s when always applied, and no gain when applied only on cancellation),
+// so it is switched off; the code is kept for experiments.
+const useLinearForm = false
+
+func (s *Store) linOf(t *Term) *linForm {
+	if l, ok := s.lin[t.ID]; ok {
+		return l
+	}
+	var l *linForm
+	m := mask(t.W)
+	switch t.Op {
+	case OpConst:
+		l = &linForm{c: t.Val}
+	case OpAdd:
+		l = linAdd(s.linOf(t.Args[0]), s.linOf(t.Args[1]), 1, m)
+	case OpSub:
+		l = linAdd(s.linOf(t.Args[0]), s.linOf(t.Args[1]), m, m) // k = -1
+	case OpNeg:
+		l = linScale(s.linOf(t.Args[0]), m, m)
+	case OpMul:
+		switch {
+		case t.Args[1].IsConst():
+			l = linScale(s.linOf(t.Args[0]), t.Args[1].Val, m)
+		case t.Args[0].IsConst():
+			l = linScale(s.linOf(t.Args[1]), t.Args[0].Val, m)
+		}
+	case OpShl:
+		if t.Args[1].IsConst() && t.Args[1].Val < uint64(t.W) {
+			l = linScale(s.linOf(t.Args[0]), (uint64(1)<<t.Args[1].Val)&m, m)
+		}
+	}
+	if l == nil || len(l.atoms) > maxLinAtoms {
+		l = &linForm{atoms: []linAtom{{t, 1}}}
+	}
+	s.lin[t.ID] = l
+	return l
+}
+
+func linScale(a *linForm, k, m uint64) *linForm {
+	r := &linForm{c: (a.c * k) & m}
+	for _, at := range a.atoms {
+		if nk := (at.k * k) & m; nk != 0 {
+			r.atoms = append(r.atoms, linAtom{at.t, nk})
+		}
+	}
+	return r
+}
+
+// linAdd returns a + k*b.
+func linAdd(a, b *linForm, k, m uint64) *linForm {
+	r := &linForm{c: (a.c + b.c*k) & m}
+	i, j := 0, 0
+	for i < len(a.atoms) || j < len(b.atoms) {
+		switch {
+		case j >= len(b.atoms) || (i < len(a.atoms) && a.atoms[i].t.ID < b.atoms[j].t.ID):
+			r.atoms = append(r.atoms, a.atoms[i])
+			i++
+		case i >= len(a.atoms) || b.atoms[j].t.ID < a.atoms[i].t.ID:
+			if nk := (b.atoms[j].k * k) & m; nk != 0 {
+				r.atoms = append(r.atoms, linAtom{b.atoms[j].t, nk})
+			}
+			j++
+		default:
+			if nk := (a.atoms[i].k + b.atoms[j].k*k) & m; nk != 0 {
+				r.atoms = append(r.atoms, linAtom{a.atoms[i].t, nk})
+			}
+			i++
+			j++
+		}
+	}
+	return r
+}
+
+// linBin builds op(a, b) in canonical linear form, or returns nil to fall back.
+func (s *Store) linBin(op Op, a, b *Term) *Term {
+	w := a.W
+	m := mask(w)
+	la, lb := s.linOf(a), s.linOf(b)
+	var l *linForm
+	switch op {
+	case OpAdd:
+		l = linAdd(la, lb, 1, m)
+	case OpSub:
+		l = linAdd(la, lb, m, m)
+	case OpMul:
+		if b.IsConst() {
+			l = linScale(la, b.Val, m)
+		} else {
+			l = linScale(lb, a.Val, m)
+		}
+	case OpShl:
+		l = linScale(la, (uint64(1)<<b.Val)&m, m)
+	}
+	if l == nil || len(l.atoms) > maxLinAtoms {
+		return nil
+	}
+	// Only rewrite when atoms actually cancelled: otherwise keep the program's own
+	// expression DAG (its sharing of intermediate sums matters to the SAT back end).
+	if op == OpAdd || op == OpSub {
+		if len(l.atoms) >= len(la.atoms)+len(lb.atoms) {
+			return nil
+		}
+		if len(l.atoms) >= len(la.atoms) && len(l.atoms) >= len(lb.atoms) && len(l.atoms) > 0 {
+			// merged coefficients but nothing disappeared: not worth flattening
+			return nil
+		}
+	} else {
+		return nil
+	}
+	return s.fromLin(l, w)
+}
+
+// fromLin materialises the canonical term of a linear form with raw nodes. Coefficients
+// above half the modulus are emitted as subtractions of the (small) negated coefficient and
+// powers of two as shifts: multiplying by 2^w-1 is the same function as negating, but a
+// multiplier circuit is far more expensive for the SAT back end than a subtractor.
+func (s *Store) fromLin(l *linForm, w int) *Term {
+	m := mask(w)
+	scaled := func(t *Term, k uint64) *Term {
+		if k == 1 {
+			return t
+		}
+		if bits.OnesCount64(k) == 1 {
+			return s.mk(&Term{Op: OpShl, W: w, Args: []*Term{t, s.Const(w, uint64(bits.TrailingZeros64(k)))}})
+		}
+		return s.mk(&Term{Op: OpMul, W: w, Args: []*Term{t, s.Const(w, k)}})
+	}
+	half := m>>1 + 1
+	var pos, neg *Term
+	for _, at := range l.atoms {
+		if at.k < half {
+			p := scaled(at.t, at.k)
+			if pos == nil {
+				pos = p
+			} else {
+				pos = s.mk(&Term{Op: OpAdd, W: w, Args: []*Term{pos, p}})
+			}
+		} else {
+			p := scaled(at.t, (-at.k)&m)
+			if neg == nil {
+				neg = p
+			} else {
+				neg = s.mk(&Term{Op: OpAdd, W: w, Args: []*Term{neg, p}})
+			}
+		}
+	}
+	c := l.c & m
+	var acc *Term
+	switch {
+	case pos == nil && neg == nil:
+		return s.Const(w, c)
+	case pos == nil:
+		acc = s.mk(&Term{Op: OpSub, W: w, Args: []*Term{s.Const(w, c), neg}})
+		c = 0
+	case neg == nil:
+		acc = pos
+	default:
+		acc = s.mk(&Term{Op: OpSub, W: w, Args: []*Term{pos, neg}})
+	}
+	if c != 0 {
+		if c < half {
+			acc = s.mk(&Term{Op: OpAdd, W: w, Args: []*Term{acc, s.Const(w, c)}})
+		} else {
+			acc = s.mk(&Term{Op: OpSub, W: w, Args: []*Term{acc, s.Const(w, (-c)&m)}})
+		}
+	}
+	s.lin[acc.ID] = l
+	return acc
 }
